@@ -32,7 +32,7 @@ def r1(ctx):
     w = ctx.find(name="with_reconnect_backoff", trait=RS)
     scan = None
     for d in _closure_defs(ctx, w):
-        b = ctx.body(d)
+        b = ctx.ibody(d)
         names = [mir.short(tm[1]) for bi, t, tm in b.real_calls()]
         if "ReconnectionState::reset_backoff" in names and "ReconnectionState::multiply_backoff" in names:
             scan = b
@@ -69,7 +69,7 @@ def r1(ctx):
     okc = False
     got = None
     if len(co) == 1:
-        cb = ctx.body(co[0])
+        cb = ctx.ibody(co[0])
         polls = [(bi, t, tm) for bi, t, tm in cb.real_calls() if tm[1].endswith("Future::poll")]
         rets = [(g, t, bi) for g, t, bi in cb.expanded_cases(0)]
         got = ([render(x[2])[:80] for x in polls], [render(t)[:80] for g, t, bi in rets])
@@ -86,7 +86,7 @@ def r1(ctx):
     ctx.check("with_reconnect_backoff:Err", len(aggs) == 1 and any(x == gs[0][2] for x in aggs[0][3]),
               "that sleep is the one generated for this failure", got=[render(a)[:160] for a in aggs], key="same-sleep")
     # errors are dropped after the wait; successes pass
-    wb = ctx.body(w)
+    wb = ctx.ibody(w)
     fm = [tm for bi, t, tm in wb.real_calls() if tm[1].endswith("StreamExt::filter_map")]
     okf = False
     if len(fm) == 1 and fm[0][2][1][0] == "agg":
@@ -99,15 +99,15 @@ def r1(ctx):
     ctx.check("with_reconnect_backoff", shape, "the stream returned is filter_map(scan(enumerate(self), state, closure)) - every init result "
               "passes through the backoff closure exactly once, nothing else is added or removed", got=render(rt)[:200], key="returned-unfiltered")
     # state arithmetic
-    fr = ctx.body(ctx.find(name="from", self_adt=STATE))
+    fr = ctx.ibody(ctx.find(name="from", self_adt=STATE))
     rt = fr.return_term()
     f = {k: render(v) for k, v in zip(rt[2], rt[3])} if rt[0] == "agg" else {}
     ctx.check("ReconnectionState::from", f.get("backoff_ms_current") == "policy.backoff_ms_initial" and f.get("policy") == "policy",
               "starts at the configured initial backoff", got=f, key="initial")
-    rb = ctx.fbody(name="reset_backoff", self_adt=STATE, trait="")
+    rb = ctx.fibody(name="reset_backoff", self_adt=STATE, trait="")
     st = [(render(s[2]), render(s[3])) for s in rb.stores()]
     ctx.check("ReconnectionState::reset_backoff", st == [("self.backoff_ms_current", "self.policy.backoff_ms_initial")], "reset to initial", got=st, key="reset")
-    mbk = ctx.fbody(name="multiply_backoff", self_adt=STATE, trait="")
+    mbk = ctx.fibody(name="multiply_backoff", self_adt=STATE, trait="")
     st = mbk.stores()
     okm = len(st) == 1 and render(st[0][2]) == "self.backoff_ms_current"
     if okm:
@@ -122,7 +122,7 @@ def r1(ctx):
         except formula.NotAFormula:
             okm = False
     ctx.check("ReconnectionState::multiply_backoff", okm, "current := min(current * multiplier, max)", got=[render(s[3]) for s in st], key="multiply")
-    gsf = ctx.fbody(name="generate_sleep_future", self_adt=STATE, trait="")
+    gsf = ctx.fibody(name="generate_sleep_future", self_adt=STATE, trait="")
     ctx.check("ReconnectionState::generate_sleep_future", render(gsf.return_term()) == "time::sleep(Duration::from_millis(self.backoff_ms_current))",
               "sleeps for the current backoff", got=render(gsf.return_term()), key="sleep")
     ctx.check("ReconnectionState::generate_sleep_future", not gsf.stores() and not [1 for bi, t, tm in gsf.real_calls() if gsf.mut_args(t)],
@@ -161,8 +161,8 @@ def r2(ctx):
     w = ctx.find(name="with_termination_on_error", trait=RS)
     leaf = None
     for d in _closure_defs(ctx, w):
-        if ctx.facts.bodies[d]["kind"] == "closure" and ctx.body(d).locals[0]["ty"].startswith("std::option::Option<std::result::Result<"):
-            leaf = ctx.body(d)
+        if ctx.facts.bodies[d]["kind"] == "closure" and ctx.ibody(d).locals[0]["ty"].startswith("std::option::Option<std::result::Result<"):
+            leaf = ctx.ibody(d)
     if leaf is None:
         raise Exception("map_while closure not found")
     tab = _term_table(ctx, leaf)
@@ -176,7 +176,7 @@ def r2(ctx):
         any(k.startswith("_=Err") and k.endswith("=False") and v == "Option::Some{0: Result::Err{0: $1.as:Err.0}}" for k, v in norm.items()) and len(norm) == 3
     ctx.check("with_termination_on_error", ok, "items pass; a terminal error ends the connection's stream; other errors are passed through",
               got=norm, key="table")
-    wb = ctx.body(w)
+    wb = ctx.ibody(w)
     mw = [tm for bi, t, tm in wb.real_calls() if tm[1].endswith("StreamExt::map")]
     ctx.check("with_termination_on_error", len(mw) == 1 and render(mw[0][2][0]) == "self", "applied to every connection", got=[render(x)[:100] for x in mw], key="per-connection")
     ctx.check("with_termination_on_error", len(mw) == 1 and wb.return_term() == mw[0], "and returned as it is (no further adapter)",
@@ -188,7 +188,7 @@ def r3(ctx):
     EV = "barter_data::streams::reconnect::Event"
     sites = []
     for d in [w] + _closure_defs(ctx, w):
-        b = ctx.body(d)
+        b = ctx.ibody(d)
         for blk in b.blocks:
             if blk["cleanup"] or blk["i"] not in b.reachable:
                 continue
@@ -197,7 +197,7 @@ def r3(ctx):
                 if rv and rv["r"] == "agg" and rv["kind"].get("adt") == EV and rv["kind"].get("variant") == "Reconnecting":
                     sites.append((d, s["sp"]))
     ctx.check("with_reconnection_events", len(sites) == 1, "the Reconnecting notice is constructed at exactly one place", got=sites, key="one-site")
-    wb = ctx.body(w)
+    wb = ctx.ibody(w)
     mp = [tm for bi, t, tm in wb.real_calls() if tm[1].endswith("StreamExt::map")]
     fl = [tm for bi, t, tm in wb.real_calls() if tm[1].endswith("StreamExt::flatten")]
     ok = len(mp) == 1 and len(fl) == 1 and fl[0][2][0] == mp[0] and render(mp[0][2][0]) == "self"
@@ -223,7 +223,7 @@ def r4(ctx):
     w = ctx.find(name="with_error_handler", trait=RS)
     leaf = None
     for d in _closure_defs(ctx, w):
-        b = ctx.body(d)
+        b = ctx.ibody(d)
         if ctx.facts.bodies[d]["kind"] == "closure" and b.locals[0]["ty"].startswith("std::future::Ready<std::option::Option<"):
             leaf = b
     if leaf is None:
@@ -247,7 +247,7 @@ def r4(ctx):
             ".as:Item.0=Ok,_=Item": "Option::Some{0: Event::Item{0: $1.as:Item.0.as:Ok.0}}",
             ".as:Item.0=Err,_=Item": "Option::None{}"}
     ctx.check("with_error_handler", tab == want, "notices and items pass; errors are removed from the stream", got=tab, want=want, key="table")
-    wbody = ctx.body(w)
+    wbody = ctx.ibody(w)
     fms = [tm for bi, t, tm in wbody.real_calls() if tm[1].endswith("StreamExt::filter_map")]
     ctx.check("with_error_handler", len(fms) == 1 and wbody.return_term() == fms[0] and render(fms[0][2][0]) == "self",
               "the stream returned is filter_map(self, handler closure) and nothing else", got=render(wbody.return_term())[:160], key="returned-unfiltered")
@@ -262,14 +262,14 @@ def r5(ctx):
           and ctx.facts.bodies[d]["kind"] == "coroutine"]
     if len(ds) != 1:
         raise Exception("init_reconnecting_stream coroutine not found")
-    b = ctx.body(ds[0])
+    b = ctx.ibody(ds[0])
     oks = [t for g, t, bi in b.expanded_cases(0) if render(t).startswith("Result::Ok")]
     ok = len(oks) == 1
     r = render(oks[0]) if ok else ""
     ok = ok and r.startswith("Result::Ok{0: StreamExt::chain(stream::once(future::ready(Result::Ok{0: ") and \
         "StreamExt::then(stream::repeat_with(^init_stream), fn:convert::identity)" in r
     ctx.check("init_reconnecting_stream", ok, "the first connection, then endlessly repeated re-initialisation, in that order", got=r[:300], key="once-chain-repeat")
-    m = ctx.body(ctx.find(path="barter_integration::stream::merge::merge"))
+    m = ctx.ibody(ctx.find(path="barter_integration::stream::merge::merge"))
     r = render(m.return_term())
     subs = [render(x) for x in mir.subterms(m.return_term())]
     marker = "StreamExt::chain(StreamExt::map(%s, fn:v1::Some), stream::once(future::ready(Option::None{})))"
@@ -278,13 +278,15 @@ def r5(ctx):
     ctx.check("merge", ok, "merge = Some-wrapped inputs each chained with a None marker, merged, cut at the first None",
               got=r[:300], key="shape")
     fw = ctx.find(name="forward_to", trait=RS)
-    fb = ctx.body(fw)
+    fb = ctx.ibody(fw)
     r = render(fb.return_term())
     ok = r.startswith("StreamExt::collect(StreamExt::map_while(self, closure:")
     cbok = False
     for d in _closure_defs(ctx, fw):
-        cb = ctx.body(d)
-        if render(cb.return_term()) == "Result::ok(Tx::send(^tx, Into::into($1)))":
+        cb = ctx.ibody(d)
+        snd = "Tx::send(^tx, Into::into($1))"
+        if common.case_table(cb) == {"(%s is Err)" % snd: ["Option::None{}"], "(%s is Ok)" % snd: ["Option::Some{0: %s.as:Ok.0}" % snd]} and \
+                [render(tm) for bi, t, tm in cb.real_calls() if cb.guard(bi) == frozenset([frozenset()])] == ["Into::into($1)", snd]:
             cbok = True
     ctx.check("forward_to", ok and cbok, "forwards every item, in order, until the receiver is gone", got=r[:200], key="forward")
 
